@@ -18,13 +18,15 @@ def _tick(kind):
 
 
 class CountingRegressor(RegressorMixin, BaseEstimator):
-    """deterministic: prediction = slope * feature + number of training rows"""
+    """deterministic: prediction = slope * feature + number of training rows + 100 * first training feature
+    (+ 1000 per earlier fit of the *same object*: a fresh clone per fold never has one)"""
 
     def __init__(self, slope=2.0):
         self.slope = slope
 
     def fit(self, X, y):
         _tick("fits")
+        self.nfits_ = getattr(self, "nfits_", 0) + 1
         self.n_train_ = len(X)
         self.first_ = float(np.asarray(X.iloc[:, 0])[0])
         STATE["log"].append(("fit", len(X)))
@@ -33,4 +35,4 @@ class CountingRegressor(RegressorMixin, BaseEstimator):
     def predict(self, X):
         _tick("predicts")
         STATE["log"].append(("predict", len(X)))
-        return self.slope * np.asarray(X.iloc[:, 0], dtype=float) + self.n_train_ + 100 * self.first_
+        return self.slope * np.asarray(X.iloc[:, 0], dtype=float) + self.n_train_ + 100 * self.first_ + 1000 * (self.nfits_ - 1)
